@@ -298,6 +298,12 @@ func (p *parser) parseByteSequence() ([]byte, error) {
 		return nil, errors.New("structuredheader: missing closing '*'")
 	}
 	s := p.getString(len)
+	for i := 0; i < len; i++ {
+		// Go's base64 decoders silently skip CR and LF, which the grammar does not allow.
+		if !isBase64Char(s[i]) {
+			return nil, fmt.Errorf("structuredheader: invalid character \\x%02x in byte sequence", s[i])
+		}
+	}
 	enc := base64.StdEncoding
 	if len%4 != 0 {
 		// Allow unpadded encoding.
@@ -311,6 +317,11 @@ func (p *parser) parseByteSequence() ([]byte, error) {
 		panic("cannot happen")
 	}
 	return data, nil
+}
+
+// isBase64Char returns true if c is allowed between the asterisks of a Byte Sequence.
+func isBase64Char(c byte) bool {
+	return isAlpha(c) || isDigit(c) || c == '+' || c == '/' || c == '='
 }
 
 func isDigit(c byte) bool {
